@@ -22,6 +22,7 @@ static struct {
 	uint8_t head_sent_at_recv_begin;
 } G;
 static uint64_t n_claim_ok, n_claim_null, n_recv_ok, n_recv_null, n_release;
+static uint64_t n_recv_null_with_message_sent, n_recv_not_in_slot_order;
 
 static int owned(void) { int n = 0; for (int i = 0; i < C4.Q; i++) n += G.st[i] != FREE; return n; }
 static void update_avail(void)
@@ -77,7 +78,9 @@ void orc_recv_end(void *p)
 	if (!p) {
 		n_recv_null++;
 		vs_trace("receiver: receive -> NULL");
-		if (G.head_sent_at_recv_begin) vs_fail("receive-misses-sent-message", "receive returned NULL although the oldest outstanding message (slot %d) had been sent before the call began", G.recv_next);
+		/* not judged: the statement promises that every sent message is received exactly once, not that a particular
+		 * receive call finds it (a message that never arrives shows as lost-message / a receiver that waits for ever) */
+		if (G.head_sent_at_recv_begin) n_recv_null_with_message_sent++;
 		return;
 	}
 	n_recv_ok++;
@@ -86,7 +89,8 @@ void orc_recv_end(void *p)
 	if (k < 0) vs_fail("receive-pointer", "receive returned a pointer that is not a message slot");
 	if (G.st[k] != SENT) vs_fail(G.st[k] == HELD ? "received-twice" : "received-unsent", "receive returned slot %d which is %s", k,
 				      G.st[k] == FREE ? "free (never sent, or already released: a duplicate)" : G.st[k] == CLAIMED ? "claimed but not sent yet" : "already held by the receiver");
-	if (k != G.recv_next) vs_fail("order", "receive returned slot %d, but messages arrive in claim order and the next claimed slot is %d", k, G.recv_next);
+	/* order is judged by claims (below), not by slot numbers: which slot a claim is given is the implementation's business */
+	if (k != G.recv_next) n_recv_not_in_slot_order++;
 	uint8_t others = 0; for (int i = 0; i < C4.Q; i++) if (i != k && (G.st[i] == CLAIMED || G.st[i] == SENT)) others |= (uint8_t)(1 << i);
 	if (G.before[k] & others) vs_fail("order", "slot %d was received before a message whose claim had completed before this one's claim was even called", k);
 	if (memcmp(p, G.pay[k], C4_MSGLEN)) vs_fail("payload", "message in slot %d reads %02x %02x, sender %d wrote %02x %02x before sending it", k, ((uint8_t *)p)[0], ((uint8_t *)p)[1], G.owner[k], G.pay[k][0], G.pay[k][1]);
@@ -286,6 +290,7 @@ int main(int argc, char **argv)
 		if (vx_too_many_violations()) break;
 	}
 	vx_count("claim_ok", n_claim_ok); vx_count("claim_null", n_claim_null); vx_count("receive_ok", n_recv_ok); vx_count("receive_null", n_recv_null); vx_count("release", n_release);
+	vx_count("receive_null_although_a_message_was_sent(not judged)", n_recv_null_with_message_sent); vx_count("receive_not_in_slot_order(not judged)", n_recv_not_in_slot_order);
 	const vs_optab_entry *tab; int nt = vs_optab(&tab);
 	for (int i = 0; i < nt; i++) { char nm[80]; snprintf(nm, sizeof(nm), "atomic: %.60s", tab[i].what); vx_count(nm, tab[i].n); }
 	vx_finish();
